@@ -64,6 +64,9 @@ type Script struct {
 	Transient []int64 `json:"transient"` // a batch carrying one of these ids fails (retryably) the first TransN times it is attempted
 	TransN    int     `json:"trans_n"`
 	SlowUS    int     `json:"slow_us"` // every export call takes this long
+	// StoreDelUS: every storage operation that deletes a key (the completion of a hand-off) takes this long,
+	// while dequeue and enqueue writes stay fast
+	StoreDelUS int `json:"store_del_us,omitempty"`
 	// Shutdown instant: after all requests were accepted, wait until WaitPush export calls have started
 	// (0 = do not wait) and then DelayUS more.
 	WaitPush int `json:"wait_push"`
@@ -337,6 +340,9 @@ func runInner(s *Script) (bool, *vt.Finding) {
 		return false, vt.Failf("harness/config", "generated config rejected: %v", err)
 	}
 	rec := xh.NewRecorder(nil)
+	if s.StoreDelUS > 0 {
+		rec.SetDeleteDelay(time.Duration(s.StoreDelUS) * time.Microsecond)
+	}
 	var host component.Host = componenttest.NewNopHost()
 	if s.Cfg.Persistent {
 		host = xh.HostWith(rec)
@@ -706,6 +712,7 @@ func gen(t *rapid.T) Script {
 	if c.Persistent {
 		s.StorageCloseFails = rapid.IntRange(0, 3).Draw(t, "storage_close_fails") == 0
 		s.StartFails = rapid.IntRange(0, 9).Draw(t, "start_fails") == 0
+		s.StoreDelUS = rapid.SampledFrom([]int{0, 0, 0, 800, 4000}).Draw(t, "store_del_us")
 	}
 	s.WaitPush = rapid.IntRange(0, 3).Draw(t, "wait_push")
 	s.DelayUS = rapid.SampledFrom([]int{0, 0, 50, 300, 2000}).Draw(t, "delay")
@@ -717,7 +724,57 @@ func gen(t *rapid.T) Script {
 	return s
 }
 
+// genSlowCompletion: persistent queue, two or three consumers, retry, a storage whose completion writes (deletes)
+// are slow while dequeue writes are fast, several requests of which some succeed at once and some sit in back-off
+// when Shutdown comes: whatever a completion writes late must not undo what a later dequeue wrote.
+func genSlowCompletion(t *rapid.T) Script {
+	s := gen(t)
+	c := &s.Cfg
+	c.Persistent, c.Batch, c.NoQueue = true, false, false
+	c.Sizer = "requests"
+	c.MinSize, c.MaxSize, c.FlushMS = 0, 0, 0
+	c.Consumers = rapid.IntRange(2, 3).Draw(t, "consumers2")
+	c.Retry = true
+	c.RetryInitMS = rapid.SampledFrom([]int{1, 3600000, 3600000}).Draw(t, "retry_initial2")
+	c.MaxElapsMS = 0
+	if c.TimeoutMS == 1 {
+		c.TimeoutMS = 0
+		s.SlowUS = 0
+	}
+	s.StartFails = false
+	s.StoreDelUS = rapid.SampledFrom([]int{500, 2000, 6000}).Draw(t, "store_del_us2")
+	for len(s.Requests) < 4 {
+		s.Requests = append(s.Requests, rapid.IntRange(1, 3).Draw(t, "items2"))
+	}
+	total := 0
+	for _, k := range s.Requests {
+		total += k
+	}
+	// one or two items fail transiently for good: their requests are in back-off when Shutdown is called
+	s.Perm = nil
+	s.Transient = []int64{int64(rapid.IntRange(total/2+1, total).Draw(t, "transient2"))}
+	if rapid.Bool().Draw(t, "two") {
+		s.Transient = append(s.Transient, int64(rapid.IntRange(1, total).Draw(t, "transient3")))
+		sort.Slice(s.Transient, func(i, j int) bool { return s.Transient[i] < s.Transient[j] })
+	}
+	s.TransN = 1000
+	return s
+}
+
 func TestShutdownDrain(t *testing.T) {
 	cS.ReplayRepeat = 30
 	vt.Run(t, cS, vt.N(1500, 40000), gen, run)
+}
+
+var cSC = vt.New("C03", "slow-completion-writes")
+
+func TestSlowCompletionWrites(t *testing.T) {
+	cSC.ReplayRepeat = 30
+	runSC := func(s Script) (bool, string, *vt.Finding) {
+		save := cS
+		cS = cSC
+		defer func() { cS = save }()
+		return run(s)
+	}
+	vt.Run(t, cSC, vt.N(400, 20000), genSlowCompletion, runSC)
 }
